@@ -377,25 +377,45 @@ def run(ctx):
     if init is None:
         ctx.violated("anchor:initialize", "Service::initialize not found")
     else:
-        ins = []
-        # the inventory set is the one handed to gossip::inventory(..) / routing add_inventory(..) (role, not name)
-        inv = set()
-        for bb, t, c in db.calls(init):
-            n = c.get("n") or ""
-            if re.search(r"gossip::inventory$", n) and len(t[2]) > 1:
+        # what is handed to gossip::inventory(..) (and to the routing table) in initialize: either a set built here from the
+        # repositories found public, or the routing table itself — the latter only after the private repositories were
+        # removed from it (a repository that turned private while the node was down is still in the persisted table)
+        gi = [(bb, t) for bb, t, c in db.calls(init) if re.search(r"gossip::inventory$", c.get("n") or "") and len(t[2]) > 1]
+        rt = [(bb, t) for bb, t, c in db.calls(init) if re.search(r"routing::Store::add_inventory$", c.get("n") or "") and len(t[2]) > 1]
+        ctx.floor("inventory:initialize:set", len(gi), 1, "gossip::inventory call in initialize")
+        g_init = graph(init)
+        cleanup = rules.call_blocks(init, r"Service::remove_inventories$|routing::Store::remove_inventories$|Service::remove_inventory$")
+        built_sets = set()
+        for bb, t in gi:
+            e = peel_calls(expr_operand(init, t[2][1]))
+            se = nshow(e)
+            key_ = "flow:initialize:inventory-source"
+            if re.search(r"Service::inventory\(", se) or "routing::Store" in se:
+                okc = bool(cleanup) and any(g_init.dominates(cb_, bb) for cb_ in cleanup)
+                ctx.check(key_, okc, "the cached inventory announcement is built from the routing table only after private repositories were removed "
+                          "from it (otherwise a repository that became private while the node was down is announced)", rules.where(init, bb), fn=init)
+            else:
                 r = flow.root_place(init, t[2][1])
                 if r is not None:
-                    inv.add(r[0])
-        ctx.floor("inventory:initialize:set", len(inv), 1, "set handed to gossip::inventory in initialize")
+                    built_sets.add(r[0])
+                ctx.held(key_, "the cached inventory announcement is built from a set assembled in initialize", rules.where(init, bb), fn=init)
+        for bb, t in rt:
+            e = peel_calls(expr_operand(init, t[2][1]))
+            while e[0] == "call" and re.search(r"::(iter|into_iter|keys|cloned|copied)$", e[1].get("n") or e[1].get("dn") or "") and e[2]:
+                e = peel_calls(e[2][0])
+            if e[0] == "phi" and "Service::inventory(" not in nshow(e):
+                built_sets.add(e[1])
+        ins = []
         for bb, t, c in db.calls(init):
             if re.search(r"BTreeSet::insert$|HashSet::insert$|::extend$|Vec::push$", c.get("n") or ""):
                 r = flow.root_place(init, t[2][0])
-                if r is not None and r[0] in inv:
+                if r is not None and r[0] in built_sets:
                     ins.append(bb)
-        ctx.floor("inventory:initialize:insert", len(ins), 1, "inventory.insert sites in initialize")
-        ok, a, bad = rules.dom_check(db, init, ins, rules.is_bool(r"^radicle::identity::doc::Doc::is_public$", True))
-        ctx.check("dom:initialize:inventory-public", bool(ok and a and ins), "initialize adds a repository to the inventory only if its document is public",
-                  rules.where(init, ins[0] if ins else None), detail={"path": list(bad.values())[:1]}, fn=init)
+        if built_sets:
+            ctx.floor("inventory:initialize:insert", len(ins), 1, "insertions into the inventory set in initialize")
+            ok, a, bad = rules.dom_check(db, init, ins, rules.is_bool(r"^radicle::identity::doc::Doc::is_public$", True))
+            ctx.check("dom:initialize:inventory-public", bool(ok and a and ins), "initialize adds a repository to the inventory only if its document is public",
+                      rules.where(init, ins[0] if ins else None), detail={"path": list(bad.values())[:1]}, fn=init)
         for bb in rules.call_blocks(init, r"^radicle::identity::doc::Doc::is_public$"):
             s = nshow(peel_calls(expr_operand(init, init["blocks"][bb]["t"][2][0])))
             ctx.check("flow:initialize:doc", s.endswith(".doc") and "repo" in s or "doc" in s, "visibility read from the repository's own document (%s)" % s,
